@@ -778,7 +778,7 @@ func fuStructured(x *fuCtx) {
 	one("Any(nil-safe typed nil error)", zap.Any("k", (*fuNilSafeErr)(nil)), []recCall{{M: "AddString", K: "k", V: "not found"}})
 	one("Errors(nil-safe typed nil)", zap.Errors("k", []error{(*fuNilSafeErr)(nil)}), []recCall{{M: "AddArray", K: "k", Sub: []recCall{{M: "AppendObject", Sub: []recCall{{M: "AddString", K: "error", V: "not found"}}}}}})
 	// types without a typed constructor fall back to reflection, with their dynamic type intact
-	for _, v := range []interface{}{fuSecret("hunter2"), fuCount(7), map[int]string{1: "a"}, &fuObj{1}, [][]byte{{1}}, [2]int{1, 2}, struct{ S fuSecret }{"x"}} {
+	for _, v := range []interface{}{fuSecret("hunter2"), fuCount(7), map[int]string{1: "a"}, &struct{ P int }{1}, [][]byte{{1}}, [2]int{1, 2}, struct{ S fuSecret }{"x"}} {
 		f := zap.Any("k", v)
 		calls, _ := record(f)
 		x.n++
